@@ -151,14 +151,29 @@ def generate(seed: int, tier: str) -> dict:
         cfg["max_depth"] = max(0, cfg["max_depth"] - 1)
         doc = gen.DocGen(Streams(seed)("doc%d" % attempt), cfg, docnum=seed % 1000).document()
     rng = st("ops")
+    alias = None
+    if st("swarm").random() < 0.12:
+        # the document body is a let-bound name that denotes a set: `let x = { … }; in x`
+        g = gen.DocGen(st("doc"), dict(cfg, attrpath=False, inherit=False, trailing_comment=False), docnum=seed % 1000)
+        inner = g.members(0, 4, gen.NAMES, [])
+        inner = [l for l in inner if l.strip() and not l.lstrip().startswith("#")] or ["    a = 1;"]
+        alias = rng.choice(["x", "pkg"])
+        doc = "let\n  %s = {\n%s\n  };\n  k = %d;\nin\n%s\n" % (alias, "\n".join(inner), seed % 1000, alias)
     dec = reader.decode(doc)
     ops: list[dict] = []
     case = {"prop": "C14", "engine": "mapping", "seed": seed, "tier": tier, "doc": doc, "ops": ops}
-    if dec.error or not dec.shape.editable:
-        return case
-    model = tree_of(dec.target)
-    scope = tree_of(dec.layers[0]) if len(dec.layers) == 1 else {}
-    scope_ok = len(dec.layers) <= 1 and not dec.shape.outer_kinds()
+    if alias:
+        m = _model_from_text(doc)
+        if m is None:
+            return case
+        _, model, scope, _info = m
+        scope_ok = True
+    else:
+        if dec.error or not dec.shape.editable:
+            return case
+        model = tree_of(dec.target)
+        scope = tree_of(dec.layers[0]) if len(dec.layers) == 1 else {}
+        scope_ok = len(dec.layers) <= 1 and not dec.shape.outer_kinds()
     n = rng.randint(1, 7 if tier == "quick" else 10)
     tag = (seed % 9000 + 1000) * 100
     for _ in range(n):
@@ -167,9 +182,19 @@ def generate(seed: int, tier: str) -> dict:
         tag += 1
         r = rng.random()
         on = "doc"
+        if alias:
+            model = scope.get(alias)
+            if not isinstance(model, dict):
+                break  # the alias no longer denotes a set: document-level access is undefined from here on
+            if rng.random() < 0.25:
+                # re-bind the name the body refers to: the document must now show the new set
+                val = {"q%d" % (tag % 7): tag} if rng.random() < 0.5 else {"expr": "{ q%d = %d; }" % (tag % 7, tag)}
+                ops.append({"op": "set", "on": "scope", "keys": [alias], "value": val})
+                scope[alias] = tokens_of_python(val)
+                continue
         base = model
         prefix: list[str] = []
-        if scope_ok and r < 0.2:
+        if scope_ok and r < (0.2 if not alias else 0.4):
             on = "scope"
             base = scope
         elif r < 0.5:
@@ -229,10 +254,29 @@ def _bare(name: str) -> bool:
     return bool(gen.model._BARE.match(name))
 
 
+def _alias_model_from_text(text: str):
+    """`let … N = { … }; … in N`: (None, tree of N's set, tree of the let layer, info) or None."""
+    doc = reader.Doc(text)
+    if doc.has_error():
+        return None
+    tops = [c for c in doc.root.named_children if c.type != "comment"]
+    if len(tops) != 1 or tops[0].type != "let_expression":
+        return None
+    body = tops[0].child_by_field_name("body")
+    if body is None or body.type != "variable_expression":
+        return None
+    name = body.text.decode()
+    scope = tree_of(reader.members_of(tops[0]))
+    target = scope.get(name)
+    if not isinstance(target, dict):
+        return None
+    return None, target, scope, {"alias": name}
+
+
 def _model_from_text(text: str):
     dec = reader.decode(text)
     if dec.error or not dec.shape.editable:
-        return None
+        return _alias_model_from_text(text) if not dec.error else None
     info: dict = {}
     model = tree_of(dec.target, info)
     scope = tree_of(dec.layers[0]) if len(dec.layers) == 1 else ({} if not dec.layers else None)
@@ -270,7 +314,9 @@ def execute(case: dict):
     if info.get("inherit"):
         bump("docs_with_inherit")
     world = _World(doc)
-    shape_facts = {"wrappers": dec.shape.kinds(), "nlayers": len(dec.layers)}
+    alias = info.get("alias")
+    shape_facts = {"wrappers": dec.shape.kinds(), "nlayers": len(dec.layers)} if dec is not None else {"wrappers": ["alias"], "nlayers": 1}
+    shape_facts["alias"] = bool(alias)
     attrpath_seen = False  # an earlier step of this history touched an attrpath-derived binding
     for i, op in enumerate(ops):
         if op["op"] == "restart":
@@ -286,6 +332,11 @@ def execute(case: dict):
             continue
         bump("ops")
         on, ks = op["on"], op["keys"]
+        if alias:
+            model = scope.get(alias) if isinstance(scope, dict) else None
+            if not isinstance(model, dict):
+                bump("skip:alias_gone")
+                break
         base_tree = scope if on == "scope" else model
         if base_tree is None:
             bump("skip:scope_multi_layer")
@@ -371,6 +422,12 @@ def execute(case: dict):
                     viols.append(Violation("C14.missing_key_no_keyerror", "deletion of absent key %r: %r" % (k, exc), i, facts))
                 if after_text != before_text:
                     viols.append(Violation("C14.failed_op_mutated", "deleting an absent key changed the text", i, facts))
+        if alias:
+            # a scope operation may have re-bound or removed the name the document body refers to
+            model = scope.get(alias) if isinstance(scope, dict) else None
+            if not isinstance(model, dict):
+                bump("skip:alias_gone")
+                break
         # ---- laws over all keys of the touched mapping, through the API
         try:
             cont = world.container(on, ks)
